@@ -288,6 +288,20 @@ theorem c17_mint_no_halt_patched (cfg : Cfg) (hc1 : cfg.mintValidate = true) (hc
   obtain ⟨hpv, hl⟩ := validate_patched_live cfg hc1 m hv
   exact mintRun_live cfg m.p hpv hl n h c h1 hh (Or.inl hc2) hm
 
+/-- C17.B11  (patched tree, with parameter updates)  The same when a `MsgUpdateParams` installs a new accepted
+    parameter set before any block: for every sequence of accepted parameter sets, one per block, no block aborts. -/
+theorem c17_mint_no_halt_patched_updates (cfg : Cfg) (hc1 : cfg.mintValidate = true) (hc2 : cfg.mintClamp = true)
+    (ms : List MintParams) (hv : ∀ m ∈ ms, MintParams.validate cfg m = true)
+    (h : Int) (c : Chain) (h1 : 1 ≤ h) (hh : c.halted = false) (hm : MinterOK c.minter) :
+    (mintRunUpd cfg (ms.map (·.p)) h c).halted = false ∧ MinterOK (mintRunUpd cfg (ms.map (·.p)) h c).minter ∧
+    c.supply ≤ (mintRunUpd cfg (ms.map (·.p)) h c).supply := by
+  apply mintRunUpd_live cfg _ h c h1 hh hm
+  intro p hp
+  simp only [List.mem_map] at hp
+  obtain ⟨m, hmem, rfl⟩ := hp
+  obtain ⟨hpv, hl⟩ := validate_patched_live cfg hc1 m (hv m hmem)
+  exact ⟨hpv, hl, Or.inl hc2⟩
+
 /-- non-vacuity: the default parameters of the chain (ten half-year phases) are accepted by the patched validators,
     and the default initial minter satisfies the state hypothesis -/
 example : MintParams.validate Cfg.patched ⟨['u', 's', 'g', 'e'],
